@@ -51,6 +51,8 @@ type label struct {
 	bs    []byte // aSend
 	ok    bool   // aSend
 	k     int    // fault kind
+	real    []byte // aSend: the bytes actually handed to Session.Send when they were prepared in advance
+	par     bool // the label belongs to a phase whose calls are made concurrently from different goroutines
 	natural bool // the fault is not injected: the configured deadline of the manager fires by itself
 }
 
@@ -218,10 +220,12 @@ func sessStep(s sessM, l label) (sessM, bool, bool) {
 		s.peerReads = true
 		return s, false, true
 	case aPeerByte:
-		if !(s.recvl && !s.rcause && s.copen && s.peerOpen) {
+		if !s.peerOpen {
 			return s, false, false
 		}
-		s.rcvd++
+		if s.recvl && !s.rcause && s.copen {
+			s.rcvd++
+		}
 		return s, false, true
 	case aRecvFault:
 		if (l.k == rkHandlerErr || l.k == rkPanic) && !s.peerOpen {
@@ -421,41 +425,77 @@ type outcome struct {
 	path []label
 }
 
-func explore(t0 stM, issued []label) []outcome {
+// par: the issued labels were calls made concurrently; they may take effect in any order
+// guide != nil: only runs whose peer bytes, exit calls and handler bytes stay within the given observation are
+// followed, the sessions' own steps are tried first, and the search stops at the first stable state that shows
+// exactly that observation (used for concurrent calls, where the number of orders is large).
+func explore(t0 stM, issued []label, par bool, guide *obsAll) []outcome {
+	if len(issued) > 30 && par {
+		panic("explore: too many concurrent labels")
+	}
 	seen := map[string]bool{}
 	var outs []outcome
-	var rec func(t stM, idx int, path []label)
-	rec = func(t stM, idx int, path []label) {
-		k := fmt.Sprintf("%d#%s", idx, t.key())
+	full := uint64(1)<<uint(len(issued)) - 1
+	var rec func(t stM, done uint64, path []label)
+	rec = func(t stM, done uint64, path []label) {
+		k := fmt.Sprintf("%x#%s", done, t.key())
 		if seen[k] {
 			return
 		}
 		seen[k] = true
-		if idx == len(issued) && stableM(t) {
+		if guide != nil {
+			if len(outs) > 0 || !within(t, *guide) {
+				return
+			}
+			if done == full && stableM(t) && obsOfM(t).eq(*guide) {
+				outs = append(outs, outcome{st: t, path: append([]label{}, path...)})
+				return
+			}
+		} else if done == full && stableM(t) {
 			outs = append(outs, outcome{st: t, path: append([]label{}, path...)})
 		}
 		for i := range t.ss {
 			for _, kd := range []int{aSendStep, aSendLost, aRecvEnd} {
 				l := label{kind: kd, i: i}
 				if n, ok := stepM(t, l); ok {
-					rec(n, idx, append(path, l))
+					rec(n, done, append(path, l))
 				}
 			}
 		}
 		if t.pend > 0 {
 			l := label{kind: lAccept, i: len(t.ss)}
 			if n, ok := stepM(t, l); ok {
-				rec(n, idx, append(path, l))
+				rec(n, done, append(path, l))
 			}
 		}
-		if idx < len(issued) {
-			if n, ok := stepM(t, issued[idx]); ok {
-				rec(n, idx+1, append(path, issued[idx]))
+		for j := range issued {
+			if done&(1<<uint(j)) != 0 {
+				continue
+			}
+			if n, ok := stepM(t, issued[j]); ok {
+				rec(n, done|1<<uint(j), append(path, issued[j]))
+			}
+			if !par {
+				break // a sequence: only the next one may take effect
 			}
 		}
 	}
 	rec(t0, 0, nil)
 	return outs
+}
+
+// within: nothing in the model state has gone beyond what was observed
+func within(t stM, g obsAll) bool {
+	for i, s := range t.ss {
+		if i >= len(g.Sess) {
+			return false
+		}
+		o := g.Sess[i]
+		if len(s.inbox) > len(o.Inbox) || string(o.Inbox[:len(s.inbox)]) != string(s.inbox) || s.onexit > o.OnExit || s.rcvd > o.Rcvd {
+			return false
+		}
+	}
+	return true
 }
 
 func b2i(b bool) int {
